@@ -1162,7 +1162,7 @@ func (fe *FuncEnc) checkPost(st *State, results []string, pos token.Pos) {
 		}
 		fe.oblige(st, "post", en.Label, fe.evalBool(env, en.Expr, en.Where), pos, "postcondition: "+en.Src)
 	}
-	if fe.c.HasAssigns {
+	if fe.c.HasAssigns && !fe.c.FrameAssumed {
 		fe.checkFrame(st, pos)
 	}
 }
